@@ -59,6 +59,8 @@ def leaves(node, under=None):
         return []
     if node.cls is None:
         return [node] if node.sort in ('expr', 'stmt') else []
+    if getattr(node, 'nested_scope', False):
+        return []
     out = []
     for _, _, c in children(node):
         out.extend(leaves(c))
